@@ -208,7 +208,10 @@ def run(ctx):
                                 x = FixedArray.CreateWithQuantity(y.GetQuantity(), y.GetValues(), dimension=n)
                             else:
                                 x, _m = programs.evaluate(T, spec, cls, cont, nul, None if cls == "scalar" else n)
-                    except (programs.Degenerate, programs.EvalError):
+                    except programs.Degenerate:
+                        continue
+                    except programs.EvalError:
+                        ctx.count("operands that could not be built")
                         continue
                     xvals = [x.GetValue()] if cls == "scalar" else list(x.GetValues())
                     case = {"x": repr(x)[:160], "class": cls, "container": cont, "length": len(xvals), "quantity": qkind}
@@ -230,5 +233,6 @@ def run(ctx):
             if i < 2 and ctx.shard == 0:
                 ctx.sample({"x": programs.render(spec), "quantity_kind": qkind, "length": n})
         exponent_families(ctx, ctx.rng("families"), 12 if ctx.tier == "quick" else 150)
+    ctx.inconclusive_if(ctx.counters.get("operands that could not be built", 0) > n_rounds, "barril refused to build %d valid operands" % ctx.counters.get("operands that could not be built", 0))
     ctx.inconclusive_if(probe.COUNTS["Array.__rmul__"] == 0, "Array operators never reached")
     ctx.inconclusive_if(probe.COUNTS["Scalar.__rtruediv__"] == 0 or probe.COUNTS["Array.__rsub__"] == 0, "reflected operators never reached")
